@@ -588,7 +588,9 @@ class C04(Check):
         css = cu().css
         lines, cases = [], []
         for _ in range(ctx.n(600, 15000)):
-            text = '@' + rng.choice(['x', 'foo', 'three-dee', 'top-left']) + G.gen_soup(rng, short=True)
+            text = '@' + rng.choice(['x', 'foo', 'three-dee', 'top-left', 'charset', 'CHARSET', 'c\\harset',
+                                     'charse\\t', '\\63harset', 'ch\\61rset']) + rng.choice(['', ' ']) \
+                + G.gen_soup(rng, short=True)
             toks = tokenize(text, full=rng.random() < 0.5)
             if not in_domain(toks):
                 continue
